@@ -16,20 +16,25 @@ CASE_TIMEOUT = 8
 TECHNIQUE = ("Lean 4 theorems about an executable model of the mapping kernels and drivers (Model/MapValid.lean) + "
              "differential correspondence of the compiled model with the real ExeTera functions + Python rendering of the "
              "Spec as failing-input oracle")
-LEVEL_TEXT = ("Kernel-checked Lean theorems, for all maps, sources, chunk sizes and marker values (no size bound): the "
-              "model of ordered_map_valid_stream returns exactly Spec.mapSpec (source value at map[r], or the empty value "
-              "at the marker) with no out-of-bounds access and within the stated fuel, hence independently of the chunk "
-              "size and of which marker value encodes 'invalid'; the models of safe_map_values, map_valid and "
-              "safe_map_indexed_values return the same mapped column; the helper kernels (sub-chunk splitter, valid "
-              "extents, value-chunk decomposition, indexed partial kernel) satisfy the tiling / extent / progress lemmas "
-              "the stream proofs rest on. The model is tied to the code by differential execution on an exhaustive small "
-              "scope and seeded random cases, for numeric, bool, float, fixed-string and indexed-string sources.")
-LEVEL_NOTE = ("The theorems are about the Lean model with the fixes D5, D9, D10/D12, D11, NC04a applied; that the model is "
-              "the code is validated by the correspondence run, not proved. For the indexed-string stream the end-to-end "
-              "equality with Spec.mapIndexedSpec is checked by the correspondence and the oracle; see Props/C04.lean for "
-              "which of its statements are proved in full and which are kept as `_partial`. Element values are abstract "
-              "in the model (kernels only copy them): dtype-specific behaviour (the choice of the empty value, numpy "
-              "fixed-string assignment) is exercised by the correspondence only.")
+LEVEL_TEXT = ("Kernel-checked Lean theorems, for all maps, sources, chunk sizes, value factors and marker values (no size "
+              "bound): the model of ordered_map_valid_stream returns exactly Spec.mapSpec (source value at map[r], or the "
+              "empty value at the marker), and the model of ordered_map_valid_indexed_stream returns exactly the stored "
+              "form (offsets, bytes) of the mapped entries whenever the value buffer holds every mapped entry and "
+              "otherwise ends with the ValueError of the D5 repair; both with no out-of-bounds access and within the "
+              "stated fuel (termination), hence independently of the chunk size, of the value-buffer size and of which "
+              "marker value encodes 'invalid'. The models of safe_map_values, map_valid and safe_map_indexed_values "
+              "return the same mapped column (also for arbitrary filters / caller-supplied result arrays); the sub-chunk "
+              "splitter partitions every map chunk and keeps each piece's index span below the chunk size for every "
+              "marker. The model is tied to the code by differential execution on an exhaustive small scope and seeded "
+              "random cases, for numeric, bool, float, fixed-string and indexed-string sources, JIT / interpreted / "
+              "bounds-checked.")
+LEVEL_NOTE = ("The theorems are about the Lean model with the fixes D5, D9, D10/D12, D11, NC04a applied (fixes/*.patch; on "
+              "the unfixed tree the check reports the design-time witnesses as violations); that the model is the code is "
+              "validated by the correspondence run, not proved. Every statement of the design entry is proved in full; no "
+              "`_partial` theorem remains. Element values are abstract in the model (kernels only copy them): "
+              "dtype-specific behaviour (choice of the empty value per dtype, numpy fixed-string assignment, utf-8 "
+              "encoding of indexed strings) is exercised by the correspondence only. Indexed sources are assumed well "
+              "formed (C01). Fixed-width integer wrap-around is not modelled (map entries and offsets are unbounded Int).")
 RULE = ("exhaustive: every map of length <= L whose non-marker entries are non-decreasing row numbers of an n-row source, "
         "markers at every subset of positions (quick L=4,n=3; thorough L=6,n=4) x marker in {-1, INVALID_INDEX_32, "
         "INVALID_INDEX_64} x chunk sizes 1..L+2 x source type in {int32,bool,float64,S3} and indexed strings with "
